@@ -33,7 +33,7 @@ META = {
  },
 }
 
-LA = ["S", "L", "H", "#", "X", "\t", " ", "*", "+", "1", ":", "\n"]
+LA = ["S", "L", "H", "#", "X", "\t", " ", "*", "+", "1", ":", "\n", "\u00b2"]
 NLA = len(LA)
 LLEN = vp.T(2, 3)
 VERS = [None, "gfa1", "gfa2"]
@@ -78,7 +78,7 @@ def h_whole_line(n: int, c0: int, c1: int, c2: int, c3: int, vl: int, vi: int, h
       str(g); g.names
   return _only_gfapy(run)
 
-FA = ["a", "+", "-", "*", "1", "0", "$", ",", "M", " ", ":", "A", "\x7f", "é", "i", "{", ".", "e"]
+FA = ["a", "+", "-", "*", "1", "0", "$", ",", "M", " ", ":", "A", "\x7f", "é", "i", "{", ".", "e", "\u00b2"]
 NFA = len(FA)
 FLEN = vp.T(1, 2)
 TEMPL = [
@@ -183,7 +183,7 @@ AA = ["a", "b", "p", "e", "*", "", "\t", "1", "+", " ", "x", "L"]
 NAA = len(AA)
 ADOCS = [["S\ta\t*", "S\tb\t*", "L\ta\t+\tb\t-\t*", "P\tp\ta+,b-\t*"],
          ["S\ta\t9\t*", "S\tb\t9\t*", "E\te\ta+\tb-\t5\t9$\t5\t9$\t*", "O\tp\ta+ b-", "U\tu\ta e"]]
-NCALL = 25
+NCALL = 29
 ALEN = vp.T(1, 2)
 
 def h_api_strings(di: bool, call: int, n: int, c0: int, c1: int) -> bool:
@@ -211,5 +211,11 @@ def h_api_strings(di: bool, call: int, n: int, c0: int, c1: int) -> bool:
     lambda: (g.add_line("P\tq\t" + s + "+\t*") if not di else g.add_line("O\tq\t" + s + "+"), str(g), g.validate()),
     lambda: (g.add_line("L\ta\t+\t" + s + "\t+\t*") if not di else g.add_line("E\t*\ta+\t" + s + "+\t0\t1\t0\t1\t*"), str(g)),
     lambda: (g.add_line("C\t" + s + "\t+\ta\t+\t0\t*") if not di else g.add_line("U\t" + s + "\ta b"), str(g)),
+    lambda: (gfapy.OrientedLine(s), gfapy.OrientedLine(s).validate(), str(gfapy.OrientedLine(s)), gfapy.OrientedLine(s).inverted()),
+    lambda: (gfapy.SegmentEnd(s), gfapy.SegmentEnd(s).validate(), str(gfapy.SegmentEnd(s)), gfapy.SegmentEnd(s).inverted()),
+    lambda: [x == gfapy.Line("E\t*\ta+\tb-\t0\t1\t0\t1\t" + (s if s else "1"), version="gfa2") for x in
+             (gfapy.Line("E\t*\ta+\tb-\t0\t1\t0\t1\t1M", version="gfa2"), gfapy.Line("E\t*\ta+\tb-\t0\t1\t0\t1\t1,2", version="gfa2"))],
+    lambda: [x.diff(gfapy.Line("L\ta\t+\tb\t-\t" + (s if s else "1M"), version="gfa1")) for x in
+             (gfapy.Line("L\ta\t+\tb\t-\t1M"), gfapy.Line("L\ta\t+\tb\t-\t*"))],
   ]
   return _only_gfapy(calls[c])
